@@ -135,21 +135,21 @@ macro_rules! pss_inst {
     };
 }
 pss_inst!(pss_fresh_l1, 1, Path::Fresh);
-pss_inst!(pss_fresh_l2, 2, Path::Fresh);
-pss_inst!(pss_fresh_l4, 4, Path::Fresh);
-pss_inst!(pss_fresh_l5, 5, Path::Fresh);
-pss_inst!(pss_fresh_l8, 8, Path::Fresh);
+pss_inst!(psst_fresh_l2, 2, Path::Fresh);
+pss_inst!(psst_fresh_l4, 4, Path::Fresh);
+pss_inst!(psst_fresh_l5, 5, Path::Fresh);
+pss_inst!(psst_fresh_l8, 8, Path::Fresh);
 pss_inst!(pss_fresh_l9, 9, Path::Fresh);
-pss_inst!(pss_dup_l1, 1, Path::Dup);
-pss_inst!(pss_dup_l8, 8, Path::Dup);
+pss_inst!(psst_dup_l1, 1, Path::Dup);
+pss_inst!(psst_dup_l8, 8, Path::Dup);
 pss_inst!(pss_dup_l9, 9, Path::Dup);
-pss_inst!(pss_costfail_l3, 3, Path::CostFail);
+pss_inst!(psst_costfail_l3, 3, Path::CostFail);
 pss_inst!(pss_costfail_l9, 9, Path::CostFail);
-pss_inst!(pss_bad_l1, 1, Path::BadAmount);
+pss_inst!(psst_bad_l1, 1, Path::BadAmount);
 pss_inst!(pss_bad_l2, 2, Path::BadAmount);
-pss_inst!(pss_bad_l5, 5, Path::BadAmount);
-pss_inst!(pss_bad_l9, 9, Path::BadAmount);
-pss_inst!(pss_bad_l10, 10, Path::BadAmount);
+pss_inst!(psst_bad_l5, 5, Path::BadAmount);
+pss_inst!(psst_bad_l9, 9, Path::BadAmount);
+pss_inst!(psst_bad_l10, 10, Path::BadAmount);
 
 /// small-integer amounts (stored inside the NodePtr): concrete representatives at every
 /// byte-length boundary
@@ -185,13 +185,13 @@ fn pss_small(v: u32) {
     std::mem::forget(a);
 }
 harness_sha!(pss_small_0, 36, { pss_small(0) });
-harness_sha!(pss_small_1, 36, { pss_small(1) });
-harness_sha!(pss_small_7f, 36, { pss_small(0x7f) });
+harness_sha!(psst_small_1, 36, { pss_small(1) });
+harness_sha!(psst_small_7f, 36, { pss_small(0x7f) });
 harness_sha!(pss_small_80, 36, { pss_small(0x80) });
-harness_sha!(pss_small_7fff, 36, { pss_small(0x7fff) });
-harness_sha!(pss_small_8000, 36, { pss_small(0x8000) });
-harness_sha!(pss_small_7fffff, 36, { pss_small(0x7f_ffff) });
-harness_sha!(pss_small_800000, 36, { pss_small(0x80_0000) });
+harness_sha!(psst_small_7fff, 36, { pss_small(0x7fff) });
+harness_sha!(psst_small_8000, 36, { pss_small(0x8000) });
+harness_sha!(psst_small_7fffff, 36, { pss_small(0x7f_ffff) });
+harness_sha!(psst_small_800000, 36, { pss_small(0x80_0000) });
 harness_sha!(pss_small_3ffffff, 36, { pss_small(0x3ff_ffff) });
 
 /// malformed coin attributes
@@ -220,10 +220,10 @@ fn pss_bad_hash<const LP: usize, const LH: usize>() {
     std::mem::forget(a);
 }
 harness_sha!(pss_parent_l31, 36, { pss_bad_hash::<31, 32>() });
-harness_sha!(pss_parent_l33, 36, { pss_bad_hash::<33, 32>() });
-harness_sha!(pss_puzzle_l31, 36, { pss_bad_hash::<32, 31>() });
+harness_sha!(psst_parent_l33, 36, { pss_bad_hash::<33, 32>() });
+harness_sha!(psst_puzzle_l31, 36, { pss_bad_hash::<32, 31>() });
 harness_sha!(pss_puzzle_l33, 36, { pss_bad_hash::<32, 33>() });
-harness_sha!(pss_puzzle_l0, 36, { pss_bad_hash::<32, 0>() });
+harness_sha!(psst_puzzle_l0, 36, { pss_bad_hash::<32, 0>() });
 
 // the final value check of the real validate_conditions: accepted => created + fee <= spent
 harness!(c02_validate_value_conservation, 4, {
